@@ -20,8 +20,10 @@
     stated on the tree, `identityParts`: needs only `NamesAgree` — placeholders of one name write the same),
     `msg_identity_translation_po` (through `Msg.msgid` / `Msg.parts` as C11 states it, under C11's text and name
     guards), `msg_identity_same_as_no_catalogue` (the same bytes as the run without a bundle).
-  Outside: {plural} messages (MsgRender finds placeholders breadth-first over its own queue, the interpreter by
-  depth in the node tree: the two agree by the C11msg correspondence, not by a theorem here).
+  {plural}: `execCmd_msg_plural_eq_msgRender` for a message that is ONE {plural} with a flat case and a flat
+  default (what `pomsg.Validate` accepts), with the agreement of the two placeholder searches as hypothesis
+  `hpick : PickAgrees …`, which `pickAgrees_plural` proves for that shape.  Outside: other plural shapes; the
+  identity translation [msgid, msgid_plural] of a plural message over `execCmd`.
 -/
 import SoyVerif.Props.C11
 import SoyVerif.Lemmas.ExecRefine
@@ -462,6 +464,378 @@ theorem msg_identity_same_as_no_catalogue (g : GEnv) (esc : Bool) (call : Regist
   have h0 := execCmd_msg_eq_msgRender { g with msgs := none } esc call src ρ (fun _ => 0) p id x y z body ctx st hfb hw0
   simp only at h0
   exact ⟨h1.1, h0.1, by rw [h1.2, h0.2]⟩
+
+/-! ### {plural} messages: one {plural} with flat cases and default (what the PO format represents)
+
+  `PickAgrees`: the interpreter's placeholder search (`pickPh` over `phAll`: smallest depth in the node tree,
+  first in document order) and Model/MsgRender's (`Msg.placeholder`: breadth-first over its queue) find the
+  same placeholder.  For flat bodies this is `pick_flat`; for the one-plural shape both visit the default
+  before the cases (`Msg.placeholder_poPlural`; `phAll`: default at depth 2, cases at depth 3): it is a NAMED
+  HYPOTHESIS of the bridge (`hpick`), discharged for that shape by `pickAgrees_plural` below. -/
+
+def PickAgrees (ρ : Bytes → Bytes) (ctx : Scope) (heap : List Cell) (phs : List (Nat × Bytes × Run)) (R : List RPart) : Prop :=
+  ∀ name, match Msg.placeholder name R with
+    | none => pickPh name phs none = none
+    | some s => ∃ run, pickPh name phs none = some run ∧ Writes run ctx heap (ρ s)
+
+theorem evalIn_keeps {g : GEnv} {e : Expr} {ctx : Scope} {st st1 : St} {v : Value}
+    (h : evalIn g e ctx st = some (v, st1)) : st1.heap = st.heap ∧ st1.out = st.out := by
+  unfold evalIn at h
+  split at h
+  · simp only [Option.some.injEq, Prod.mk.injEq] at h; rw [← h.2]; exact ⟨rfl, rfl⟩
+  · cases h
+
+def flatCases : MCases → Bool
+  | .nil => true
+  | .cons ps r => flatT ps && flatCases r
+
+def toTCases : MCases → List (List TPart)
+  | .nil => []
+  | .cons ps r => toT ps :: toTCases r
+
+section
+variable (g : GEnv) (phs : List (Nat × Bytes × Run)) (body : MsgParts) (R : List RPart) (ρ : Bytes → Bytes)
+  (ν : Bytes → Int) (sel : Int → Int) (ctx : Scope) (heap : List Cell) (hp : PickAgrees ρ ctx heap phs R)
+include hp
+
+/-- `evalMsgParts` on a flat part list, for any message whose placeholder searches agree -/
+theorem evalMParts_flatT : ∀ (ps : MParts), flatT ps = true → ∀ st, st.heap = heap →
+      match Msg.renderTs ρ ν sel R (toT ps) with
+      | some out =>
+        (evalMParts g phs body ps ctx st).cls = .ok ∧ (evalMParts g phs body ps ctx st).ctx = ctx ∧
+        (evalMParts g phs body ps ctx st).st.heap = heap ∧
+        bufBytes (evalMParts g phs body ps ctx st).st.out = bufBytes st.out ++ out
+      | none => (evalMParts g phs body ps ctx st).cls = .err
+  | .nil, _, st, hs => by
+    rw [evalMParts]
+    show (Cls.ok = Cls.ok) ∧ ctx = ctx ∧ st.heap = heap ∧ bufBytes st.out = bufBytes st.out ++ []
+    exact ⟨rfl, rfl, hs, by simp⟩
+  | .cons (.raw t) rest, hf, st, hs => by
+    rw [evalMParts]
+    have ih := evalMParts_flatT rest (by simpa [flatT] using hf) (write st t) hs
+    simp only [toT, Msg.renderTs, Msg.renderT]
+    cases hr : Msg.renderTs ρ ν sel R (toT rest) with
+    | none => rw [hr] at ih; exact ih
+    | some o =>
+      rw [hr] at ih
+      simp only at ih ⊢
+      refine ⟨ih.1, ih.2.1, ih.2.2.1, ?_⟩
+      rw [ih.2.2.2, bufBytes_write, List.append_assoc]
+  | .cons (.ph name) rest, hf, st, hs => by
+    rw [evalMParts]
+    simp only [toT, Msg.renderTs, Msg.renderT]
+    have hpn := hp name
+    cases hfs : Msg.placeholder name R with
+    | none =>
+      rw [hfs] at hpn
+      simp only [hpn, Option.map_none]
+    | some s =>
+      rw [hfs] at hpn
+      obtain ⟨run, hpick, hrun⟩ := hpn
+      obtain ⟨r1, r2, r3, r4⟩ := hrun st hs
+      simp only [hpick, Option.map_some, r1]
+      have ih := evalMParts_flatT rest (by simpa [flatT] using hf) (run ctx st).st r3
+      rw [r2]
+      cases hr : Msg.renderTs ρ ν sel R (toT rest) with
+      | none => rw [hr] at ih; exact ih
+      | some o =>
+        rw [hr] at ih
+        simp only at ih ⊢
+        refine ⟨ih.1, ih.2.1, ih.2.2.1, ?_⟩
+        rw [ih.2.2.2, r4, List.append_assoc]
+  | .cons (.plural _ _) _, hf, _, _ => by simp [flatT] at hf
+
+/-- `part.Cases[pluralCaseIndex]` -/
+theorem evalMCases_eq : ∀ (cs : MCases) (n : Nat), flatCases cs = true → ∀ st, st.heap = heap →
+      match Msg.renderTCase ρ ν sel R (toTCases cs) n with
+      | some out =>
+        (evalMCases g phs body cs n ctx st).cls = .ok ∧ (evalMCases g phs body cs n ctx st).ctx = ctx ∧
+        (evalMCases g phs body cs n ctx st).st.heap = heap ∧
+        bufBytes (evalMCases g phs body cs n ctx st).st.out = bufBytes st.out ++ out
+      | none => (evalMCases g phs body cs n ctx st).cls = .err
+  | .nil, n, _, st, _ => by rw [evalMCases]; simp [toTCases, Msg.renderTCase]
+  | .cons ps r, 0, hf, st, hs => by
+    rw [evalMCases]
+    simp only [toTCases, Msg.renderTCase]
+    exact evalMParts_flatT g phs body R ρ ν sel ctx heap hp ps (by simp [flatCases] at hf; exact hf.1) st hs
+  | .cons ps r, n + 1, hf, st, hs => by
+    rw [evalMCases]
+    simp only [toTCases, Msg.renderTCase]
+    exact evalMCases_eq r n (by simp [flatCases] at hf; exact hf.2) st hs
+
+/-- the plural clause of `evalMsgParts`: the value of the plural variable is `evalIn` of the source {plural}'s
+    expression (`ν s = i`), the form is the one the bundle's `pluralCase` selects (`sel`) -/
+theorem evalMParts_plural (b : MsgBundle) (hb : g.msgs = some b) (hsel : sel = b.pluralCase)
+    (vn : Bytes) (ve : Expr) (s : Bytes) (hfp : findPlural body vn = some ve) (hfn : Msg.findPluralNode vn R = some s)
+    (i : Int64) (hval : ∀ st, st.heap = heap → ∃ st1, evalIn g ve ctx st = some (.int i, st1)) (hν : ν s = i.toInt)
+    (mcs : MCases) (hflat : flatCases mcs = true) (st : St) (hs : st.heap = heap) :
+    match Msg.renderT ρ ν sel R (.plural vn (toTCases mcs)) with
+    | some out =>
+      (evalMParts g phs body (.cons (.plural vn mcs) .nil) ctx st).cls = .ok ∧
+      (evalMParts g phs body (.cons (.plural vn mcs) .nil) ctx st).ctx = ctx ∧
+      (evalMParts g phs body (.cons (.plural vn mcs) .nil) ctx st).st.heap = heap ∧
+      bufBytes (evalMParts g phs body (.cons (.plural vn mcs) .nil) ctx st).st.out = bufBytes st.out ++ out
+    | none => (evalMParts g phs body (.cons (.plural vn mcs) .nil) ctx st).cls = .err := by
+  obtain ⟨st1, he⟩ := hval st hs
+  obtain ⟨k1, k2⟩ := evalIn_keeps he
+  rw [evalMParts, Msg.renderT]
+  simp only [hfp, hfn, he, hb, hν, hsel]
+  by_cases hneg : b.pluralCase i.toInt < 0
+  · simp only [hneg, if_true]
+  · simp only [hneg, if_false]
+    have hc := evalMCases_eq g phs body R ρ ν sel ctx heap hp mcs (b.pluralCase i.toInt).toNat hflat st1 (k1.trans hs)
+    rw [hsel] at hc
+    cases hr : Msg.renderTCase ρ ν b.pluralCase R (toTCases mcs) (b.pluralCase i.toInt).toNat with
+    | none => rw [hr] at hc; simp only [hc]
+    | some out =>
+      rw [hr] at hc
+      obtain ⟨c1, c2, c3, c4⟩ := hc
+      simp only [c1]
+      rw [evalMParts]
+      exact ⟨rfl, c2, c3, by rw [c4, k2]⟩
+end
+
+/-- `{plural $e}{case k}C{default}D{/plural}` as the whole body of a message -/
+def pluralBody (pp : Nat) (vn : Bytes) (ve : Expr) (cp : Nat) (k : Int) (cbp : Nat) (C : MsgParts) (dp : Nat) (D : MsgParts) : MsgParts :=
+  .plural pp vn ve (.cons cp k cbp C .nil) dp D .nil
+
+/-- … as Model/MsgRender sees it (`s`: the label of the plural's expression) -/
+def pluralR (src : MsgPhBody → Bytes) (vn s : Bytes) (k : Int) (C D : MsgParts) : List RPart :=
+  [.plural vn s [(k, toR src C)] (toR src D)]
+
+section
+variable (g : GEnv) (esc : Bool) (call : Registry.Tmpl → Run) (src : MsgPhBody → Bytes) (ρ : Bytes → Bytes) (ν : Bytes → Int)
+  (ctx : Scope) (heap : List Cell)
+  (pp : Nat) (vn : Bytes) (ve : Expr) (cp : Nat) (k : Int) (cbp : Nat) (C : MsgParts) (dp : Nat) (D : MsgParts) (s : Bytes)
+  (hC : flatBody C = true) (hD : flatBody D = true)
+  (hwC : AllPh (fun b => Writes (execPh g esc call b) ctx heap (ρ (src b))) C)
+  (hwD : AllPh (fun b => Writes (execPh g esc call b) ctx heap (ρ (src b))) D)
+  (i : Int64) (hval : ∀ st, st.heap = heap → ∃ st1, evalIn g ve ctx st = some (.int i, st1)) (hν : ν s = i.toInt)
+include hC hD hwC hwD hval hν
+
+/-- `walkPlural` on the one-plural message = Model/MsgRender's `renderSource` -/
+theorem walkMsgBody_plural (st : St) (hs : st.heap = heap) :
+    (walkMsgBody g esc call (pluralBody pp vn ve cp k cbp C dp D) ctx st).cls = .ok ∧
+    (walkMsgBody g esc call (pluralBody pp vn ve cp k cbp C dp D) ctx st).ctx = ctx ∧
+    (walkMsgBody g esc call (pluralBody pp vn ve cp k cbp C dp D) ctx st).st.heap = heap ∧
+    bufBytes (walkMsgBody g esc call (pluralBody pp vn ve cp k cbp C dp D) ctx st).st.out =
+      bufBytes st.out ++ Msg.renderSource ρ ν (pluralR src vn s k C D) := by
+  obtain ⟨st1, he⟩ := hval st hs
+  obtain ⟨k1, k2⟩ := evalIn_keeps he
+  have hs1 : st1.heap = heap := k1.trans hs
+  unfold pluralBody
+  rw [walkMsgBody]
+  simp only [he]
+  rw [walkPluralCases]
+  simp only [Msg.renderSource, pluralR, Msg.renderSrcList, Msg.renderSrc, Msg.renderSrcCases, hν, List.append_nil]
+  by_cases hk : (i.toInt == k) = true
+  · simp only [hk, if_true]
+    obtain ⟨h1, h2, h3, h4⟩ := walkMsgBody_eq_msgRender g esc call src ρ ctx heap ν C hC hwC st1 hs1
+    simp only [h1]
+    rw [walkMsgBody]
+    exact ⟨rfl, h2, h3, by rw [h4, k2]⟩
+  · simp only [hk, if_false, Bool.false_eq_true]
+    rw [walkPluralCases]
+    obtain ⟨h1, h2, h3, h4⟩ := walkMsgBody_eq_msgRender g esc call src ρ ctx heap ν D hD hwD st1 hs1
+    simp only [h1]
+    rw [walkMsgBody]
+    exact ⟨rfl, h2, h3, by rw [h4, k2]⟩
+end
+
+/-- the bridge for a message that is ONE {plural} with a flat case and a flat default (the shape
+    `pomsg.Validate` accepts): what the {msg} command appends in Model/Eval is what Model/MsgRender renders.
+    Hypotheses: the placeholders of the case and of the default are writers; the plural's expression evaluates
+    to the integer `i` in the message's scope, `ν s = i`; and `hpick`, the agreement of the two placeholder
+    searches (see `PickAgrees`). -/
+theorem execCmd_msg_plural_eq_msgRender (g : GEnv) (esc : Bool) (call : Registry.Tmpl → Run) (src : MsgPhBody → Bytes)
+    (ρ : Bytes → Bytes) (ν : Bytes → Int) (p id : Nat) (x y : Bytes) (z : Nat) (ctx : Scope) (st : St)
+    (pp : Nat) (vn : Bytes) (ve : Expr) (cp : Nat) (k : Int) (cbp : Nat) (C : MsgParts) (dp : Nat) (D : MsgParts) (s : Bytes)
+    (hC : flatBody C = true) (hD : flatBody D = true)
+    (hwC : AllPh (fun b => Writes (execPh g esc call b) (push ctx st).1 (push ctx st).2.heap (ρ (src b))) C)
+    (hwD : AllPh (fun b => Writes (execPh g esc call b) (push ctx st).1 (push ctx st).2.heap (ρ (src b))) D)
+    (i : Int64) (hval : ∀ st', st'.heap = (push ctx st).2.heap → ∃ st1, evalIn g ve (push ctx st).1 st' = some (.int i, st1))
+    (hν : ν s = i.toInt)
+    (hpick : PickAgrees ρ (push ctx st).1 (push ctx st).2.heap
+      (phAll g esc call (pluralBody pp vn ve cp k cbp C dp D) 0) (pluralR src vn s k C D)) :
+    match g.msgs with
+    | none =>
+      (execCmd g esc call (.msg p id x y z (pluralBody pp vn ve cp k cbp C dp D)) ctx st).cls = .ok ∧
+      bufBytes (execCmd g esc call (.msg p id x y z (pluralBody pp vn ve cp k cbp C dp D)) ctx st).st.out =
+        bufBytes st.out ++ Msg.renderSource ρ ν (pluralR src vn s k C D)
+    | some b =>
+      match b.message id with
+      | none =>
+        (execCmd g esc call (.msg p id x y z (pluralBody pp vn ve cp k cbp C dp D)) ctx st).cls = .ok ∧
+        bufBytes (execCmd g esc call (.msg p id x y z (pluralBody pp vn ve cp k cbp C dp D)) ctx st).st.out =
+          bufBytes st.out ++ Msg.renderSource ρ ν (pluralR src vn s k C D)
+      | some ps =>
+        ∀ mcs, ps = .cons (.plural vn mcs) .nil → flatCases mcs = true →
+        match Msg.renderTranslated ρ ν b.pluralCase (pluralR src vn s k C D) [.plural vn (toTCases mcs)] with
+        | some out =>
+          (execCmd g esc call (.msg p id x y z (pluralBody pp vn ve cp k cbp C dp D)) ctx st).cls = .ok ∧
+          bufBytes (execCmd g esc call (.msg p id x y z (pluralBody pp vn ve cp k cbp C dp D)) ctx st).st.out =
+            bufBytes st.out ++ out
+        | none => (execCmd g esc call (.msg p id x y z (pluralBody pp vn ve cp k cbp C dp D)) ctx st).cls = .err := by
+  have hsrc := walkMsgBody_plural g esc call src ρ ν _ _ pp vn ve cp k cbp C dp D s hC hD hwC hwD i hval hν (push ctx st).2 rfl
+  have hout : (push ctx st).2.out = st.out := rfl
+  rw [execCmd]
+  cases hm : g.msgs with
+  | none =>
+    simp only
+    obtain ⟨w1, w2, w3⟩ := walkBlockOf_ok (ctx := ctx) (st := st) hsrc.1 hsrc.2.1
+    exact ⟨w1, by rw [w3, hsrc.2.2.2, hout]⟩
+  | some b =>
+    simp only
+    cases hid : b.message id with
+    | none =>
+      simp only
+      obtain ⟨w1, w2, w3⟩ := walkBlockOf_ok (ctx := ctx) (st := st) hsrc.1 hsrc.2.1
+      exact ⟨w1, by rw [w3, hsrc.2.2.2, hout]⟩
+    | some ps =>
+      simp only
+      intro mcs hps hfl
+      subst hps
+      have hfp : findPlural (pluralBody pp vn ve cp k cbp C dp D) vn = some ve := by simp [pluralBody, findPlural]
+      have hfn : Msg.findPluralNode vn (pluralR src vn s k C D) = some s := by simp [pluralR, Msg.findPluralNode]
+      have ht := evalMParts_plural g _ (pluralBody pp vn ve cp k cbp C dp D) (pluralR src vn s k C D) ρ ν b.pluralCase _ _ hpick
+        b hm rfl vn ve s hfp hfn i hval hν mcs hfl (push ctx st).2 rfl
+      have hrt : Msg.renderTranslated ρ ν b.pluralCase (pluralR src vn s k C D) [.plural vn (toTCases mcs)] =
+          (Msg.renderT ρ ν b.pluralCase (pluralR src vn s k C D) (.plural vn (toTCases mcs))).map (· ++ []) := by
+        unfold Msg.renderTranslated
+        rw [Msg.renderTs, Msg.renderTs]
+        cases Msg.renderT ρ ν b.pluralCase (pluralR src vn s k C D) (.plural vn (toTCases mcs)) <;> rfl
+      rw [hrt]
+      cases hr : Msg.renderT ρ ν b.pluralCase (pluralR src vn s k C D) (.plural vn (toTCases mcs)) with
+      | none =>
+        rw [hr] at ht
+        exact walkBlockOf_err ht
+      | some out =>
+        rw [hr] at ht
+        obtain ⟨w1, w2, w3⟩ := walkBlockOf_ok (ctx := ctx) (st := st) ht.1 ht.2.1
+        simp only [Option.map_some, List.append_nil]
+        exact ⟨w1, by rw [w3, ht.2.2.2, hout]⟩
+
+/-! ### `PickAgrees` for the one-plural shape -/
+
+/-- the state of `pickPh`'s loop -/
+def pickSt (name : Bytes) : List (Nat × Bytes × Run) → Option (Nat × Run) → Option (Nat × Run)
+  | [], best => best
+  | (d, n, run) :: r, best =>
+    if n == name then
+      match best with
+      | some (bd, _) => if d < bd then pickSt name r (some (d, run)) else pickSt name r best
+      | none => pickSt name r (some (d, run))
+    else pickSt name r best
+
+theorem pickPh_eq_pickSt (name : Bytes) : ∀ l best, pickPh name l best = (pickSt name l best).map (·.2)
+  | [], best => rfl
+  | (d, n, run) :: r, best => by
+    cases best with
+    | none =>
+      simp only [pickPh, pickSt]
+      split <;> exact pickPh_eq_pickSt name r _
+    | some br =>
+      obtain ⟨bd, r0⟩ := br
+      simp only [pickPh, pickSt]
+      split
+      · split <;> exact pickPh_eq_pickSt name r _
+      · exact pickPh_eq_pickSt name r _
+
+theorem pickSt_append (name : Bytes) : ∀ a b best, pickSt name (a ++ b) best = pickSt name b (pickSt name a best)
+  | [], b, best => rfl
+  | (d, n, run) :: r, b, best => by
+    simp only [List.cons_append, pickSt]
+    split
+    · split
+      · split <;> exact pickSt_append name r b _
+      · exact pickSt_append name r b _
+    · exact pickSt_append name r b _
+
+section
+variable (g : GEnv) (esc : Bool) (call : Registry.Tmpl → Run) (src : MsgPhBody → Bytes) (ρ : Bytes → Bytes)
+  (ctx : Scope) (heap : List Cell) (name : Bytes)
+
+/-- `pickPh`'s loop over the placeholders of a flat list at depth `d`: the best so far stays when it is at depth
+    ≤ `d` or the list has no placeholder of that name, else the first one of that name replaces it -/
+theorem pickSt_flat (d : Nat) : ∀ (B : MsgParts), flatBody B = true →
+    AllPh (fun b => Writes (execPh g esc call b) ctx heap (ρ (src b))) B → ∀ (best : Option (Nat × Run)),
+    (∀ bd r, best = some (bd, r) → bd ≤ d → pickSt name (phAll g esc call B d) best = best) ∧
+    (∀ (hb : ∀ bd r, best = some (bd, r) → d < bd),
+      match Msg.findSrc name (toR src B) with
+      | none => pickSt name (phAll g esc call B d) best = best
+      | some s => ∃ run, pickSt name (phAll g esc call B d) best = some (d, run) ∧ Writes run ctx heap (ρ s))
+  | .nil, _, _, best => by rw [phAll]; exact ⟨fun _ _ _ _ => rfl, fun _ => rfl⟩
+  | .text _ _ r, hf, hw, best => by
+    rw [phAll]; simp only [toR, Msg.findSrc]
+    exact pickSt_flat d r (by simpa [flatBody] using hf) hw best
+  | .ph _ n b r, hf, hw, best => by
+    rw [phAll]
+    simp only [pickSt, toR, Msg.findSrc]
+    have ihr := pickSt_flat d r (by simpa [flatBody] using hf) hw.2
+    by_cases hn : (n == name) = true
+    · simp only [hn, if_true]
+      refine ⟨fun bd r0 hb hle => ?_, fun hb => ?_⟩
+      · subst hb
+        simp only [Nat.not_lt.mpr hle, if_false]
+        exact (ihr _).1 bd r0 rfl hle
+      · cases best with
+        | none => exact ⟨_, (ihr _).1 d _ rfl (Nat.le_refl _), hw.1⟩
+        | some br =>
+          obtain ⟨bd, r0⟩ := br
+          simp only [hb bd r0 rfl, if_true]
+          exact ⟨_, (ihr _).1 d _ rfl (Nat.le_refl _), hw.1⟩
+    · simp only [hn, if_false, Bool.false_eq_true]
+      exact ihr best
+  | .plural .., hf, _, _ => by simp [flatBody] at hf
+end
+
+/-- the two placeholder searches agree on the one-plural shape: both look in the default first, then in the
+    case (`Msg.placeholder_poPlural`; `phAll`: the default's placeholders at depth 2, the case's at depth 3) -/
+theorem pickAgrees_plural (g : GEnv) (esc : Bool) (call : Registry.Tmpl → Run) (src : MsgPhBody → Bytes) (ρ : Bytes → Bytes)
+    (ctx : Scope) (heap : List Cell)
+    (pp : Nat) (vn : Bytes) (ve : Expr) (cp : Nat) (k : Int) (cbp : Nat) (C : MsgParts) (dp : Nat) (D : MsgParts) (s : Bytes)
+    (hC : flatBody C = true) (hD : flatBody D = true)
+    (hwC : AllPh (fun b => Writes (execPh g esc call b) ctx heap (ρ (src b))) C)
+    (hwD : AllPh (fun b => Writes (execPh g esc call b) ctx heap (ρ (src b))) D) :
+    PickAgrees ρ ctx heap (phAll g esc call (pluralBody pp vn ve cp k cbp C dp D) 0) (pluralR src vn s k C D) := by
+  intro name
+  unfold pluralBody pluralR
+  rw [Msg.placeholder_poPlural name vn s k _ _ (isFlat_toR src C) (isFlat_toR src D)]
+  rw [phAll, phAllCases, phAllCases, phAll, List.append_nil, List.append_nil, pickPh_eq_pickSt, pickSt_append]
+  have hCc := (pickSt_flat g esc call src ρ ctx heap name 3 C hC hwC none).2 (fun _ _ h => by cases h)
+  have findApp : Msg.findSrc name (toR src D ++ toR src C) =
+      (match Msg.findSrc name (toR src D) with | some x => some x | none => Msg.findSrc name (toR src C)) := by
+    induction toR src D with
+    | nil => rfl
+    | cons a l ih =>
+      cases a with
+      | ph n s0 => simp only [List.cons_append, Msg.findSrc]; split <;> simp [ih]
+      | text _ => simpa [Msg.findSrc] using ih
+      | plural _ _ _ _ => simpa [Msg.findSrc] using ih
+  rw [findApp]
+  cases hfC : Msg.findSrc name (toR src C) with
+  | none =>
+    rw [hfC] at hCc
+    rw [hCc]
+    have hDd := (pickSt_flat g esc call src ρ ctx heap name 2 D hD hwD none).2 (fun _ _ h => by cases h)
+    cases hfD : Msg.findSrc name (toR src D) with
+    | none => rw [hfD] at hDd; simp only [hDd]; rfl
+    | some sd =>
+      rw [hfD] at hDd
+      obtain ⟨run, h1, h2⟩ := hDd
+      exact ⟨run, by rw [h1]; rfl, h2⟩
+  | some sc =>
+    rw [hfC] at hCc
+    obtain ⟨runC, hc1, hc2⟩ := hCc
+    rw [hc1]
+    have hDd := (pickSt_flat g esc call src ρ ctx heap name 2 D hD hwD (some (3, runC))).2
+      (fun bd r h => by simp only [Option.some.injEq, Prod.mk.injEq] at h; omega)
+    cases hfD : Msg.findSrc name (toR src D) with
+    | none => rw [hfD] at hDd; simp only [hDd]; exact ⟨runC, rfl, hc2⟩
+    | some sd =>
+      rw [hfD] at hDd
+      obtain ⟨run, h1, h2⟩ := hDd
+      exact ⟨run, by rw [h1]; rfl, h2⟩
 
 /-! ### non-vacuity: `{msg}<b>{$x}</b>{/msg}` (placeholders START_BOLD, X, END_BOLD) with the translation
     `{X}: {START_BOLD}{END_BOLD}` — the hypotheses are satisfiable (html tags and a print of a variable are
